@@ -502,6 +502,7 @@ class Parser:
             return self.trigger_error('Nested definition not allowed.')
 
         self._context.enter_routine()
+        routine_start = len(self._code_gen.program)
         self._add_instruction(OpCode.ROUTINE, name)
 
         routine = Routine(name)
@@ -512,6 +513,7 @@ class Parser:
                 return False
         result = self.command_seq()
         self._add_instruction(OpCode.END, name)
+        self._code_gen.relocated(len(self._code_gen.program) - routine_start)
         self._context.exit_routine()
         return result
 
